@@ -11,29 +11,37 @@ HARNESSES = [
 ]
 ENCODED = ["Number::{cmp, eq} and the usize variants: all 40 representation arms (exact domain "
            "between integers/rationals, lossless, consistent)", "Unifier::unify_fixnum", "Unifier::unify_big_integer", "Unifier::unify_big_rational",
-           "HeapCellValue::order_category", "(index keys: see C06)"]
+           "HeapCellValue::order_category", "(index keys: see C06)",
+           "every switch on a Number's representation outside the arithmetic kernels (builtins of "
+           "system_calls.rs, machine_state_impl.rs, dispatch.rs, unify.rs, ...): Integer and Fixnum "
+           "arms present together"]
 ASSUME = ["dashu's num_eq/eq compare denoted values (trusted; IBig::num_eq(&i64) was checked on "
           "stack values in round 0)",
           "the fixnum fast paths of the arithmetic kernels normalise their results (C01 "
           "check_via_from: Fixnum iff the value fits)"]
 BOUNDS = "every pair (instruction number kind, cell kind); comparison outcome symbolic"
-OUTSIDE = ("every integer-taking builtin in system_calls.rs, the database, sorting "
-           "(compare_term_test), ArenaFrom<Integer> (no normalisation by design)")
+OUTSIDE = ("what the Integer arm of an integer-taking builtin computes (only its presence is decided; "
+           "the replay set compares outcomes), the database, sorting (compare_term_test), "
+           "ArenaFrom<Integer> (no normalisation by design)")
 
 
 def mpost(results):
-    from vlib.mirsmt import c05, numarms
+    from vlib.mirsmt import c05, numarms, c05sites
     from vlib.common import EXIT_VIOLATION, EXIT_INCONCLUSIVE
     r1 = c05.run()
     r2 = numarms.run(label="C05")
+    r3 = c05sites.run()
     out = dict(r1)
-    out["evaluations"] = r1.get("evaluations", 0) + r2.get("evaluations", 0)
-    out["distinct_nontrivial"] = r1.get("distinct_nontrivial", 0) + r2.get("distinct_nontrivial", 0)
-    out["samples"] = r1.get("samples", []) + r2.get("samples", [])
+    out["evaluations"] = sum(r.get("evaluations", 0) for r in (r1, r2, r3))
+    out["distinct_nontrivial"] = sum(r.get("distinct_nontrivial", 0) for r in (r1, r2, r3))
+    out["samples"] = r1.get("samples", []) + r2.get("samples", []) + r3.get("samples", [])
+    out["mirsmt_regions"] = r1.get("mirsmt_regions", []) + r3.get("mirsmt_regions", [])
     for k, v in r2.items():
         if k.startswith("numarms"):
             out[k] = v
-    ex = [r.get("exit", 0) for r in (r1, r2)]
+    if "mirsmt_violations" in r3:
+        out.setdefault("mirsmt_violations", []).extend(r3["mirsmt_violations"])
+    ex = [r.get("exit", 0) for r in (r1, r2, r3)]
     if EXIT_VIOLATION in ex:
         out["exit"] = EXIT_VIOLATION
     elif EXIT_INCONCLUSIVE in ex:
